@@ -669,8 +669,15 @@ def check_sort_key(chk, fi: FuncInfo, call: ast.Call, rule: str, what: str) -> O
         param, body = kf.args.args[0].arg, [ast.Return(value=kf.body)]
     elif isinstance(kf, ast.Name):
         defs = [n for n in ast.walk(fi.node) if isinstance(n, ast.FunctionDef) and n.name == kf.id]
+        if not defs:
+            try:  # a module-level function of the package
+                hm, hn = chk.repo.const_home(fi.module.name, kf.id)
+                g = chk.repo.modules[hm].funcs.get(hn)
+                defs = [g.node] if g is not None and g.cls is None else []
+            except Exception:
+                defs = []
         if len(defs) == 1 and len(defs[0].args.args) == 1:
-            param, body = defs[0].args.args[0].arg, defs[0].body
+            param, body = defs[0].args.args[0].arg, [b for b in defs[0].body if not (isinstance(b, ast.Expr) and isinstance(b.value, ast.Constant))]
     if body is None:
         chk.error(rule, fi.site(call), f"{what}: sort key `{norm(kf)[:60]}` not readable")
         return None
